@@ -166,6 +166,13 @@ class Exec(Engine):
 
     def st_Assign(self, stmt, st):
         out = []
+        if isinstance(stmt.value, ast.Name) and stmt.value.id in st.vars and not self.spec:
+            v0 = st.vars[stmt.value.id]
+            if v0.t[0] in ("set", "bag", "seq", "dict", "list", "obj") and all(isinstance(t, ast.Name) for t in stmt.targets):
+                # two names for one mutable object: only sound if declared (value semantics would hide the sharing)
+                ok = self.c.aliases_ok if self.c is not None else ()
+                if stmt.targets[0].id not in ok:
+                    raise OutOfSubset(f"aliasing of mutable '{stmt.value.id}' as '{stmt.targets[0].id}' at line {stmt.lineno} (declare aliases_ok with a justification)")
         for s, v in self.ev(stmt.value, st):
             for t in stmt.targets:
                 self.assign(t, v, s, stmt)
@@ -621,6 +628,7 @@ class Exec(Engine):
                     self.oblige(s, znot(t), "raises", f"post.no-normal-return-when[{exc}:{cond[:40]}]/path{i}", self.fn.lineno)
                 for e, t in self.spec_conj(c.ensures, s):
                     self.oblige(s, t, "post", f"post[{e[:60]}]/path{i}", self.fn.lineno)
+                self.frame_obligations(s, i)
                 if c.defn is not None:
                     saved = self.spec
                     self.spec = True
@@ -639,6 +647,7 @@ class Exec(Engine):
                 else:
                     ts = [t for _, t in self.spec_conj(allowed, self._with_old(s))]
                     self.oblige(s, zor(*ts), "raises", f"raises.only-when[{exc}]/path{i}", self.fn.lineno)
+                self.frame_obligations(s, i)
                 for e, t in self.spec_conj(c.ensures_on_raise, s):
                     self.oblige(s, t, "post", f"post.raise[{e[:60]}]/path{i}", self.fn.lineno)
             else:
@@ -646,6 +655,15 @@ class Exec(Engine):
         self.n_paths = len(finals)
         self.n_normal = n_norm
         return self.obls
+
+    def frame_obligations(self, s, i):
+        """Parameters of mutable type that the contract does not list under 'modifies' must be unchanged."""
+        for p, t in self.c.params.items():
+            if p in self.c.modifies or t[0] not in ("obj", "set", "bag", "seq", "dict"):
+                continue
+            if p not in s.vars:
+                continue
+            self.oblige(s, self.eq(s.vars[p], s.old[p]), "frame", f"frame[{p} unchanged]/path{i}", self.fn.lineno)
 
     def _with_old(self, s):
         """raises-conditions are evaluated over the entry values of the parameters."""
